@@ -688,10 +688,79 @@ struct Plan {
 
 /// `heavy`: 753..782-bit engine (30..100 ms per pairing); `chunked`: the model's multi Miller loop works
 /// on 4-pair chunks (BLS12, BN, BW6) - MNT4/MNT6/CP6 multiply independent single loops
+/// Points with special coordinates (x = 0, x = 1, ... as produced by `from_random_bytes` on structured
+/// byte strings, cofactor-cleared into the prime-order groups): a non-identity element of G1 (G2) pairs
+/// non-trivially with the generator of the other group (both groups are cyclic of prime order r and the
+/// pairing of the generators is not 1), the value has order dividing r, and the pairing is additive
+/// around them.  Catches identity filters / shortcuts keyed on a coordinate value instead of the
+/// infinity flag.
+fn special_points<E: Eng>(ctx: &mut Ctx, st: &Setup<E>) {
+    use ark_ec::AffineRepr;
+    let patterns: Vec<Vec<u8>> = {
+        let mut v = Vec::new();
+        for len in [32usize, 48, 64, 96, 100, 104, 128, 192, 200, 208, 256, 288, 300, 304, 400] {
+            for first in [0u8, 1, 2, 3] {
+                let mut b = vec![0u8; len];
+                b[0] = first;
+                v.push(b.clone());
+                // the same with the "greatest y" / sign flag bit pattern in the last byte set
+                let l = b.len() - 1;
+                b[l] = 0x80;
+                v.push(b);
+            }
+        }
+        v
+    };
+    let g1s: Vec<E::G1Affine> = {
+        let mut v: Vec<E::G1Affine> = patterns.iter().filter_map(|b| E::G1Affine::from_random_bytes(b)).map(|p| p.clear_cofactor()).filter(|p| !p.is_zero()).collect();
+        v.dedup();
+        v.truncate(6);
+        v
+    };
+    let g2s: Vec<E::G2Affine> = {
+        let mut v: Vec<E::G2Affine> = patterns.iter().filter_map(|b| E::G2Affine::from_random_bytes(b)).map(|p| p.clear_cofactor()).filter(|p| !p.is_zero()).collect();
+        v.dedup();
+        v.truncate(4);
+        v
+    };
+    let (n1, n2) = (g1s.len() as u64, g2s.len() as u64);
+    ctx.bound(&format!("{}.special_points", st.name), format!("{n1} special G1 points, {n2} special G2 points (from_random_bytes on structured strings, cofactor-cleared)"));
+    let g = st.g1[1];
+    let h = st.g2[1];
+    ctx.sweep(&format!("{}/special", st.name), n1 + n2, |i, loc| {
+        loc.class(st.class);
+        let input = || format!("{} special point #{i}", st.name);
+        if i < n1 {
+            let p = g1s[i as usize];
+            loc.class("special_point_g1");
+            loc.class_if(p.x().map(|x| x.is_zero()).unwrap_or(false), "special_point_x=0");
+            let Some(e1) = guard(loc, "special_point", input, || E::pairing(p, h)) else { return };
+            chk(loc, "special_point", !e1.0.is_one(), || format!("{}: e(P, H) = 1 for a non-identity P = {p} of G1", input()));
+            chk(loc, "special_point", e1.0.pow(&st.r_limbs).is_one(), || format!("{}: e(P,H)^r != 1", input()));
+            let sum: E::G1Affine = (p.into_group() + g.into_group()).into_affine();
+            let Some(e2) = guard(loc, "special_point", input, || E::pairing(sum, h)) else { return };
+            chk(loc, "special_point", e2.0 == e1.0 * st.base.0, || format!("{}: e(P+G, H) != e(P,H) e(G,H) for P = {p}", input()));
+            let Some(m) = guard(loc, "special_point", input, || E::multi_pairing([p, g], [h, h])) else { return };
+            chk(loc, "special_point", m.0 == e2.0, || format!("{}: multi_pairing([P,G],[H,H]) != e(P+G,H) for P = {p}", input()));
+        } else {
+            let q = g2s[(i - n1) as usize];
+            loc.class("special_point_g2");
+            let Some(e1) = guard(loc, "special_point", input, || E::pairing(g, q)) else { return };
+            chk(loc, "special_point", !e1.0.is_one(), || format!("{}: e(G, Q) = 1 for a non-identity Q = {q} of G2", input()));
+            chk(loc, "special_point", e1.0.pow(&st.r_limbs).is_one(), || format!("{}: e(G,Q)^r != 1", input()));
+            let sum: E::G2Affine = (q.into_group() + h.into_group()).into_affine();
+            let Some(e2) = guard(loc, "special_point", input, || E::pairing(g, sum)) else { return };
+            chk(loc, "special_point", e2.0 == e1.0 * st.base.0, || format!("{}: e(G, Q+H) != e(G,Q) e(G,H) for Q = {q}", input()));
+            let Some(m) = guard(loc, "special_point", input, || E::multi_pairing([g, g], [q, h])) else { return };
+            chk(loc, "special_point", m.0 == e2.0, || format!("{}: multi_pairing([G,G],[Q,H]) != e(G,Q+H) for Q = {q}", input()));
+        }
+    });
+}
+
 fn run_engine<E: Eng>(ctx: &mut Ctx, name: &'static str, class: &'static str, family: &'static str, heavy: bool, chunked: bool) {
     // skip the set-up cost of engines deselected by --only / --replay
     if let Some(o) = &ctx.only {
-        let names = ["bilinear", "additive", "prepared", "multi"].map(|s| format!("{name}/{s}"));
+        let names = ["bilinear", "additive", "prepared", "multi", "special"].map(|s| format!("{name}/{s}"));
         if !names.iter().any(|n| n.contains(o.as_str())) {
             return;
         }
@@ -729,6 +798,7 @@ fn run_engine<E: Eng>(ctx: &mut Ctx, name: &'static str, class: &'static str, fa
     additive(ctx, &st, &plan.add);
     prepared(ctx, &st, &plan.prep, plan.all_form_pairs);
     multi(ctx, &st, plan.variants, plan.boundary_identity_cases, plan.all_shapes);
+    special_points(ctx, &st);
 }
 
 fn main() {
